@@ -37,6 +37,8 @@ CONFIG = dict(
         "Rbgp.Policy.Props.crud_ref_closed",
         "Rbgp.Policy.Props.in_use_not_deleted",
         "Rbgp.Policy.Props.referenced_unchanged",
+        "Rbgp.Policy.Props.request_stored",
+        "Rbgp.Policy.Props.no_stale_objects",
         "Rbgp.Policy.Props.holders_ref_closed",
         "Rbgp.Policy.Props.eval_eq_reference_daemon",
         "Rbgp.Policy.Props.holder_untouched",
@@ -63,7 +65,7 @@ CONFIG = dict(
     expect_tokens=["(r reject", "(r accept (", "(r pass", "(err inuse)", "(err notfound)", "(err invalid)", "(imp none)",
                    "set prefix", "set neighbor", "set aspath", "set comm", "set ext", "set large", "(some (", "cset aspath as1 all",
                    "invert", "(prep ", "(med mod", "(nh ", "(a 2 80 ", "(a 4 128 (v 4294967295))", "(a 4 128 (v 0))",
-                   "(a 16 192", "(a 32 192", "(dstep", "(hexp ((asg", "(himp ((asg", "(asg @4:", "(asg @6:", "(err exists)"],
+                   "(a 16 192", "(a 32 192", "(dstep", "(err exists)", " t)", "(hexp ((asg", "(himp ((asg", "(asg @4:", "(asg @6:", "(err exists)"],
     trusted_base=["model lean/Rbgp/Policy/DModel.lean of Global::{add_policy, delete_policy, add_policy_assignment, delete_policy_assignment, "
                   "add_peer} (daemon/src/event/mod.rs) and set_policy_assignment / set_policies / delete_peer (daemon/src/event/grpc.rs)",
                   "harness/daemon/c14.rs (+ harness/common/c14_table.rs shared with the pt binary): real Global, TableManager and "
@@ -76,12 +78,19 @@ CONFIG = dict(
                   "RegexEnv (regex crate, ext_community_to_string) is an uninterpreted parameter of every theorem; the driver runs "
                   "with a small engine (literals . \\d * + ^ $) from which the generator draws its patterns"],
     modelled_not_verified=[
-        "daemon level: the set / statement gRPC handlers are entered below their message conversion (global.ptable is called "
-        "directly, as they do); add/delete policy, add/delete assignment and add_peer through the real Global wrappers; "
-        "SetPolicyAssignment, SetPolicies and DeletePeer through the real GrpcService handlers with messages built by the "
-        "harness (SetPolicies statements restricted to set conditions, local-pref/MED equality, local-pref/MED actions); "
-        "apply_config / load_policy_from_config, peer groups and dynamic peers are not exercised; the lock-free readers of "
-        "the ArcSwap holders (peer tasks) are not modelled — calls are sequential",
+        "daemon level: AddDefinedSet(replace)/DeleteDefinedSet always, AddStatement/DeleteStatement whenever the statement can be "
+        "said in an api::Statement (about 3 of 4 generated ones; everything but ext-community actions, `pass`, repeated or "
+        "out-of-message-order condition kinds), SetPolicyAssignment, SetPolicies and DeletePeer go through the real GrpcService "
+        "handlers and convert.rs; add/delete policy, add/delete assignment, add_peer through the real Global wrappers.  The "
+        "harness speaks the enum numbering the converters implement (MatchSet.type and Comparison read as 0/1/2 although "
+        "gobgp.proto numbers them 1/2/3 after UNSPECIFIED=0 — reported to the API-conversion property, not judged here)",
+        "the gates and argument choices of the session path are NOT executed: probes call table::apply_import/apply_export with the "
+        "holder's assignment and the case's arguments; `.filter(|p| p.needs_rpki)` + override-else-global selection in "
+        "handle_prefix_update (event/mod.rs) and the arguments built in export.rs (pre_policy_defaults, original_nexthop, "
+        "confed flag, local/remote address) need the export model of C09/C01 to predict.  What IS judged: the needs_rpki flag "
+        "every holder's assignment carries against the rpki conditions of the statements its names resolve to",
+        "apply_config / load_policy_from_config, peer groups and dynamic peers are not exercised; the lock-free readers of the "
+        "ArcSwap holders (peer tasks) are not modelled — calls are sequential",
         "free-form AS-path regex members: the reference consults them, the code does not (open finding F14-aspath-regex-ignored); "
         "excluded from the master theorem by the explicit hypothesis Op.noAsRegex",
         "well-known community names in parse_community (to_lowercase + table lookup): correspondence only (hypothesis Op.noWellKnown)",
@@ -440,6 +449,14 @@ def gen_case(r, tier):
         ops += [churn_op(r) for _ in range(2 + r.below(7))]
     else:
         ops = [churn_op(r) for _ in range(3 + r.below(10))]
+    if r.chance(1, 8):
+        # unassign, rebuild the objects under the same names, assign again: nothing stale may survive
+        sn = r.pick(STMT_NAMES[:2])
+        kind = r.pick(KINDS)
+        ops += ["(asg-del exp t ())", "(asg-del imp t ())", "(pol-del p1 %s t ())" % r.pick(["t", "f"]), "(pol-del p2 t t ())",
+                "(stmt-del %s t () none ())" % sn, "(set-replace %s %s %s)" % (kind, r.pick(SET_NAMES[kind]), gen_elems(r, kind, n=2)),
+                "(stmt-add %s %s)" % (sn, gen_stmt_body(r, allow_nh=False)), "(pol-add p1 (%s))" % sn,
+                "(asg-add exp ga accept (p1))", "(asg-add imp gi accept (p1))"]
     return "(case (probes %s) (ops %s))" % (" ".join(probes), " ".join(ops))
 
 
@@ -447,24 +464,47 @@ def gen_case(r, tier):
 API_COND_ORDER = ["prefix", "neighbor", "aspath", "comm", "ext", "large"]
 
 
-def gen_api_stmt_body(r):
-    """statement expressible in an api::Statement as the harness builds it (canonical condition order)"""
+def gen_api_stmt_body(r, allow_nh=True):
+    """statement expressible in an api::Statement as the harness builds it (conditions once per kind, message order)"""
     conds = []
-    for kind in API_COND_ORDER:
+
+    def cset(kind):
+        o = r.pick(["any", "invert"]) if kind in ("prefix", "neighbor") else r.pick(["any", "all", "invert"])
+        if kind in ("prefix", "neighbor") and r.chance(1, 12):
+            o = "all"
+        conds.append("(cset %s %s %s)" % (kind, r.pick(SET_NAMES[kind]) if r.chance(11, 12) else "nosuch", o))
+    for kind in ["prefix", "neighbor", "aspath"]:
         if r.chance(1, 4):
-            o = r.pick(["any", "invert"]) if kind in ("prefix", "neighbor") else r.pick(["any", "all", "invert"])
-            if kind in ("prefix", "neighbor") and r.chance(1, 12):
-                o = "all"
-            conds.append("(cset %s %s %s)" % (kind, r.pick(SET_NAMES[kind]) if r.chance(11, 12) else "nosuch", o))
-    if r.chance(1, 5):
+            cset(kind)
+    if r.chance(1, 6):
+        conds.append("(aslen %s %d)" % (r.pick(["eq", "ge", "le"]), r.pick([0, 1, 2, 3, 255])))
+    for kind in ["comm", "ext", "large"]:
+        if r.chance(1, 5):
+            cset(kind)
+    if r.chance(1, 8):
+        conds.append("(nexthop %s)" % " ".join(r.pick(NEXTHOPS) for _ in range(1 + r.below(2))))
+    if r.chance(1, 6):
+        conds.append("(rpki %s)" % r.pick(["nf", "valid", "invalid"]))
+    if r.chance(1, 6):
         conds.append("(lpeq %d)" % r.pick([0, 100, 200]))
-    if r.chance(1, 5):
+    if r.chance(1, 6):
         conds.append("(medeq %d)" % r.pick([0, 5, 100]))
+    if r.chance(1, 8):
+        conds.append("(origin %d)" % r.pick([0, 1, 2]))
+    if r.chance(1, 8):
+        conds.append("(rtype %s)" % r.pick(["internal", "external", "local"]))
+    if r.chance(1, 8):
+        conds.append("(ccount %s %d)" % (r.pick(["eq", "ge", "le"]), r.pick([0, 1, 2])))
+    if r.chance(1, 10):
+        conds.append("(afi %s)" % " ".join(r.pick(["(1 1)", "(2 1)", "(1 128)"]) for _ in range(1 + r.below(2))))
     acts = []
-    if r.chance(1, 2):
-        acts.append("(lp %d)" % r.pick([0, 100, 200, 300]))
-    if r.chance(1, 2):
-        acts.append("(med %s %d)" % (r.pick(["mod", "replace"]), r.pick([0, 10, -10, 5, 4294967295])))
+    seen = set()
+    for _ in range(r.pick([0, 1, 1, 2, 3])):
+        a = gen_action(r, allow_nh)
+        k = a.split(" ")[0]
+        if k not in seen and k != "(ext":
+            seen.add(k)
+            acts.append(a)
     return "(%s) %s (%s)" % (" ".join(conds), r.pick(["none", "accept", "reject", "reject"]), " ".join(acts))
 
 
@@ -541,6 +581,10 @@ def gen_dcase(r, tier):
             ops.append("(asg-add global exp %s" % o.split(" ", 3)[3])
         elif o.startswith("(asg-add imp"):
             ops.append("(asg-add global imp %s" % o.split(" ", 3)[3])
+        elif o.startswith("(stmt-add") and r.chance(2, 3):
+            nm = o.split(" ")[1]
+            body = gen_api_stmt_body(r, allow_nh=(nm not in STMT_NAMES[:2]))
+            ops.append("(tbl (stmt-add %s %s))" % (nm, body))
         else:
             ops.append("(tbl %s)" % o)
     for p in peers:
